@@ -387,11 +387,27 @@ func c05EqConstEdges(fi *FnInfo, vals map[ssa.Value]bool, k int64) []string {
 		truth := (bo.Op == token.EQL) != flip
 		out = append(out, condLabel(iff.Cond, truth))
 	}
-	return out
+	// ... and the fact itself, in the engine's canonical spelling, for every carrier: see c05NilEdges
+	for v := range vals {
+		out = append(out, "EQ("+desc(v)+","+desc(ssa.NewConst(constant.MakeInt64(k), v.Type()))+")")
+	}
+	return uniq(sortStrings(out))
 }
 
 // c05NilEdges: the If edges of fn on which one of the given values is known to be
 // nil (`v == nil` true edge, `v != nil` false edge, through negations), as labels.
+//
+// Besides the labels of the branches found in fn, the fact `v == nil` itself is listed for every given value, in the
+// spelling the engine gives it (condLabel: EQ(<value>,nil)). The two coincide wherever fn branches on the comparison. They
+// differ when the comparison is not the condition of a branch of its own: `if failed(err) {` with
+// `func failed(e error) bool { return e != nil }` — the helper has no branch, the caller branches on the helper's
+// verdict, and the engine composes the helper's boolean summary on that edge: the exit's must-pass facts then contain
+// EQ(<err>,nil) although no If of any function carries that label. What the obligation asks for is the must-pass fact
+// on a value that hands on the target's result — the value is what the carriers fix (exactly one call of each
+// validator interface and one aggregator call are reachable from a candidate, c05FindAnchors, so the printed form of
+// a carrier denotes the target's result and nothing else); which branch, in which function, established the fact is
+// immaterial. A predicate that answers without looking at the value on some path (`len(chain) > 1 && e != nil`) yields
+// no such fact on its false verdict: the engine keeps only what every path to the verdict passed.
 func c05NilEdges(fi *FnInfo, vals map[ssa.Value]bool) []string {
 	var out []string
 	for _, b := range fi.Fn.Blocks {
@@ -425,7 +441,10 @@ func c05NilEdges(fi *FnInfo, vals map[ssa.Value]bool) []string {
 		truth := (bo.Op == token.EQL) != flip
 		out = append(out, condLabel(iff.Cond, truth))
 	}
-	return out
+	for v := range vals {
+		out = append(out, "EQ("+desc(v)+",nil)")
+	}
+	return uniq(sortStrings(out))
 }
 
 // c05FailingPhiEdges finds CFG edges all of whose continuations end in a failing
